@@ -55,6 +55,10 @@ pub struct Program {
     pub version: u8,
     /// witness placed at index 0 (exec-from-witness programs read it)
     pub witness_file: Option<String>,
+    /// bytes of padding in front of the witness file (programs loaded from a non-zero offset of
+    /// their data piece)
+    #[serde(default)]
+    pub witness_pad: u64,
 }
 
 fn load(name: &str) -> Bytes {
@@ -91,7 +95,9 @@ fn build_rtx(p: &Program) -> Arc<ResolvedTransaction> {
         tb = tb.cell_dep(packed::CellDep::new_builder().out_point(d.out_point.clone()).build());
     }
     if let Some(w) = &p.witness_file {
-        tb = tb.witness(load(w));
+        let mut data = vec![0xffu8; p.witness_pad as usize];
+        data.extend_from_slice(&load(w));
+        tb = tb.witness(Bytes::from(data));
     }
     Arc::new(ResolvedTransaction { transaction: tb.build(), resolved_cell_deps: deps, resolved_inputs: vec![input_cell], resolved_dep_groups: vec![] })
 }
@@ -107,8 +113,11 @@ fn env() -> Arc<TxVerifyEnv> {
     Arc::new(TxVerifyEnv::new_commit(&header))
 }
 
-fn verifier(rtx: &Arc<ResolvedTransaction>, cons: &Arc<Consensus>) -> TransactionScriptsVerifier<NoData> {
-    TransactionScriptsVerifier::new(Arc::clone(rtx), NoData, Arc::clone(cons), env())
+/// The production verifier with the production syscalls plus the test-only DEBUG_PAUSE syscall
+/// (number 2178, answered "done" without pausing here): several testdata programs call it and
+/// would otherwise stop with InvalidEcall.
+fn verifier(rtx: &Arc<ResolvedTransaction>, cons: &Arc<Consensus>) -> TransactionScriptsVerifier<NoData, PauseCtx> {
+    pause_verifier(rtx, cons, true)
 }
 
 /// outcome class: Ok(cycles) or the error text without cycle numbers
@@ -146,7 +155,7 @@ fn is_exceeded(o: &Out) -> bool {
 }
 
 fn programs() -> Vec<Program> {
-    let p = |files: &[&str], args: &[u8], version: u8| Program { files: files.iter().map(|s| s.to_string()).collect(), args: args.to_vec(), version, witness_file: None };
+    let p = |files: &[&str], args: &[u8], version: u8| Program { files: files.iter().map(|s| s.to_string()).collect(), args: args.to_vec(), version, witness_file: None, witness_pad: 0 };
     let mut v = vec![];
     for ver in 0..=2u8 {
         v.push(p(&["always_success"], &[], ver));
@@ -168,6 +177,29 @@ fn programs() -> Vec<Program> {
     v.push(p(&["spawn_caller_exec", "spawn_callee_exec_caller", "spawn_callee_exec_callee"], &[], 2));
     v.push(p(&["spawn_caller_out_of_cycles", "spawn_callee_out_of_cycles"], &[], 2));
     v.push(p(&["load_is_even_with_snapshot", "is_even.lib"], &[], 1));
+    // programs loaded from a slice of a witness that starts at offset 0 / 10 / 4096 (exec and spawn):
+    // a resumed VM re-reads its clean code pages from the data piece, at the recorded offset
+    for pad in [0u64, 10, 4096] {
+        // exec_configurable_callee.c: flag 0, recursion 1, number 2, expected 1; then exec from
+        // index 0, source input, place witness, bounds = offset << 32 | 0 (to the end)
+        let mut args: Vec<u8> = vec![0u8];
+        for e in [1u64, 2, 1, 0, 1, 1, pad << 32] {
+            args.extend(e.to_le_bytes());
+        }
+        args.extend_from_slice(cell_from(load("mul2.lib"), 0).1.as_slice());
+        let mut e = p(&["exec_configurable_caller", "exec_configurable_callee", "mul2.lib"], &args, 2);
+        e.witness_file = Some("exec_configurable_callee".into());
+        e.witness_pad = pad;
+        v.push(e);
+        let mut args: Vec<u8> = vec![];
+        for e in [0u64, 1, 1, pad << 32] {
+            args.extend(e.to_le_bytes());
+        }
+        let mut sp = p(&["spawn_configurable_caller", "spawn_configurable_callee"], &args, 2);
+        sp.witness_file = Some("spawn_configurable_callee".into());
+        sp.witness_pad = pad;
+        v.push(sp);
+    }
     v
 }
 
@@ -246,7 +278,7 @@ fn run_program(ctx: &Ctx, p: &Program, cons: &Arc<Consensus>) -> Report {
         return r;
     }
     if std::env::var("C05_PROBE").is_ok() {
-        println!("probe {:?} args={:?} v{} {}ms -> {:.60}", p.files, p.args, p.version, probe_ms, format!("{base:?}"));
+        println!("probe {:?} args={:?} v{} {}ms -> {:.300}", p.files, p.args, p.version, probe_ms, format!("{base:?}"));
         return r;
     }
 
@@ -507,7 +539,7 @@ fn data_hash(file: &str) -> Vec<u8> {
 }
 
 fn pause_programs() -> Vec<Program> {
-    let p = |files: &[&str], args: Vec<u8>, version: u8| Program { files: files.iter().map(|s| s.to_string()).collect(), args, version, witness_file: None };
+    let p = |files: &[&str], args: Vec<u8>, version: u8| Program { files: files.iter().map(|s| s.to_string()).collect(), args, version, witness_file: None, witness_pad: 0 };
     let mut v = vec![];
     for ver in 1..=2u8 {
         v.push(p(&["current_cycles_with_snapshot"], vec![], ver));
